@@ -2,14 +2,24 @@
 package c03
 
 import (
+	"bytes"
 	"context"
+	"encoding/base64"
+	"encoding/binary"
 	"errors"
 	"fmt"
+	"io"
+	"net"
+	"net/http"
+	"net/http/httptest"
 	"strings"
 	"sync"
 	"testing"
+	"time"
 
 	"github.com/IrineSistiana/mosdns/v5/pkg/pool"
+	"github.com/IrineSistiana/mosdns/v5/pkg/server"
+	"github.com/IrineSistiana/mosdns/v5/pkg/server_handler"
 	cacheplugin "github.com/IrineSistiana/mosdns/v5/plugin/executable/cache"
 	"github.com/IrineSistiana/mosdns/v5/plugin/executable/arbitrary"
 	hostsplugin "github.com/IrineSistiana/mosdns/v5/plugin/executable/hosts"
@@ -50,6 +60,7 @@ type Query struct {
 	Opt       *Opt   `json:"opt"`
 	Malformed string `json:"malformed"` // "" | qr | q0 | q2 | answer | ns | extra2
 	UDP       bool   `json:"udp"`
+	Via       string `json:"via"` // handle (EntryHandler.Handle directly) | get | post (HttpHandler) | tcpsrv (ServeTCP on loopback) | udpsrv (ServeUDP on loopback)
 }
 
 type Up struct {
@@ -114,6 +125,9 @@ func genUp(t *rapid.T, l string, limits []int) Up {
 	if u.TargetSize < 0 {
 		u.TargetSize = 0
 	}
+	if u.TargetSize > 60000 {
+		u.TargetSize = 60000 // the statement covers answers that fit 65535 bytes; leave room for what the chain adds
+	}
 	u.Err = rapid.IntRange(0, 7).Draw(t, l+"err") == 0
 	u.TC = rapid.IntRange(0, 11).Draw(t, l+"tc") == 0
 	u.WithOpt = rapid.Bool().Draw(t, l+"opt")
@@ -155,6 +169,13 @@ func genCase(t *rapid.T) Case {
 			q.Malformed = rapid.SampledFrom([]string{"qr", "q0", "q2", "answer", "ns", "extra2"}).Draw(t, "malk")
 		}
 		q.UDP = rapid.Bool().Draw(t, "udp")
+		q.Via = rapid.SampledFrom([]string{"handle", "handle", "handle", "handle", "get", "post", "tcpsrv", "udpsrv"}).Draw(t, "via")
+		switch q.Via {
+		case "udpsrv":
+			q.UDP = true
+		case "get", "post", "tcpsrv":
+			q.UDP = false
+		}
 		c.Queries = append(c.Queries, q)
 		if q.Opt != nil && q.Opt.Size > 512 {
 			limits = append(limits, int(q.Opt.Size))
@@ -361,7 +382,20 @@ func runCase(c Case, ctx *hx.Ctx) *hx.Failure {
 		mu.Lock()
 		before := len(caps)
 		mu.Unlock()
-		payload := h.Handle(context.Background(), m, meta, pack)
+		var payload *[]byte
+		if q.Via == "" || q.Via == "handle" {
+			payload = h.Handle(context.Background(), m, meta, pack)
+		} else {
+			w, sendErr := sendVia(q.Via, h, m, q.Malformed != "")
+			ctx.Class("via=" + q.Via)
+			if sendErr != nil {
+				if q.Malformed == "" {
+					return hx.Failf("C03/no-reply", "query %d %v sent via %s got no reply: %v\nprogram: %v", qi, orig.Question, q.Via, sendErr, c.Main)
+				}
+			} else {
+				payload = &w
+			}
+		}
 		mu.Lock()
 		after := len(caps)
 		var capd *hand.Captured
@@ -380,7 +414,9 @@ func runCase(c Case, ctx *hx.Ctx) *hx.Failure {
 			return hx.Failf("C03/no-reply", "query %d %v got no reply (chain error: %v)\nprogram: %v", qi, orig.Question, capErr(capd), c.Main)
 		}
 		wire := append([]byte(nil), *payload...)
-		pool.ReleaseBuf(payload)
+		if q.Via == "" || q.Via == "handle" {
+			pool.ReleaseBuf(payload)
+		}
 		r := new(dns.Msg)
 		if err := r.Unpack(wire); err != nil {
 			return hx.Failf("C03/reply-unparsable", "query %d: reply does not unpack: %v", qi, err)
@@ -481,3 +517,86 @@ func capErr(c *hand.Captured) error {
 func TestPropHandler(t *testing.T) { hx.Check(t, 1500, genCase, runCase) }
 
 func TestReplay(t *testing.T) { hx.Replay(t, "TestPropHandler", 3, runCase) }
+
+// sendVia delivers the query through one of the real servers in front of the handler and
+// returns the reply bytes; an error means "no DNS reply".
+func sendVia(via string, h *server_handler.EntryHandler, m *dns.Msg, expectNothing bool) ([]byte, error) {
+	w, err := m.Pack()
+	if err != nil {
+		return nil, fmt.Errorf("query does not pack: %w", err)
+	}
+	switch via {
+	case "get", "post":
+		hh := server.NewHttpHandler(h, server.HttpHandlerOpts{})
+		var req *http.Request
+		if via == "get" {
+			req = httptest.NewRequest("GET", "/dns-query?dns="+base64.RawURLEncoding.EncodeToString(w), nil)
+			req.Header.Set("Accept", "application/dns-message")
+		} else {
+			req = httptest.NewRequest("POST", "/dns-query", bytes.NewReader(w))
+			req.Header.Set("Content-Type", "application/dns-message")
+		}
+		rec := httptest.NewRecorder()
+		hh.ServeHTTP(rec, req)
+		if rec.Code != 200 {
+			return nil, fmt.Errorf("http status %d", rec.Code)
+		}
+		if ct := rec.Header().Get("Content-Type"); ct != "application/dns-message" {
+			return nil, fmt.Errorf("content type %q", ct)
+		}
+		return rec.Body.Bytes(), nil
+	case "tcpsrv":
+		l, err := net.Listen("tcp", "127.0.0.1:0")
+		if err != nil {
+			return nil, err
+		}
+		defer l.Close()
+		go server.ServeTCP(l, h, server.TCPServerOpts{})
+		c, err := net.Dial("tcp", l.Addr().String())
+		if err != nil {
+			return nil, err
+		}
+		defer c.Close()
+		fr := binary.BigEndian.AppendUint16(nil, uint16(len(w)))
+		if _, err := c.Write(append(fr, w...)); err != nil {
+			return nil, err
+		}
+		c.SetReadDeadline(time.Now().Add(3 * time.Second))
+		hdr := make([]byte, 2)
+		if _, err := io.ReadFull(c, hdr); err != nil {
+			return nil, fmt.Errorf("no frame: %w", err)
+		}
+		b := make([]byte, binary.BigEndian.Uint16(hdr))
+		if _, err := io.ReadFull(c, b); err != nil {
+			return nil, fmt.Errorf("short frame: %w", err)
+		}
+		return b, nil
+	case "udpsrv":
+		uc, err := net.ListenUDP("udp", &net.UDPAddr{IP: net.IPv4(127, 0, 0, 1)})
+		if err != nil {
+			return nil, err
+		}
+		defer uc.Close()
+		go server.ServeUDP(uc, h, server.UDPServerOpts{})
+		c, err := net.DialUDP("udp", nil, uc.LocalAddr().(*net.UDPAddr))
+		if err != nil {
+			return nil, err
+		}
+		defer c.Close()
+		if _, err := c.Write(w); err != nil {
+			return nil, err
+		}
+		wait := 1500 * time.Millisecond
+		if expectNothing {
+			wait = 100 * time.Millisecond // a malformed query must stay unanswered; do not wait long for nothing
+		}
+		c.SetReadDeadline(time.Now().Add(wait))
+		b := make([]byte, 65535)
+		n, err := c.Read(b)
+		if err != nil {
+			return nil, fmt.Errorf("no datagram: %w", err)
+		}
+		return b[:n], nil
+	}
+	return nil, fmt.Errorf("unknown via %q", via)
+}
